@@ -83,7 +83,7 @@ def zz(v): v = int(v); return str(v) if v >= 0 else "(%d)" % v
 def leb_part(ck, binp, tier, seed, dist):
     n = 300 if tier == "quick" else 3000
     rc, out = sh([binp, "-mode", "leb", "-seed", str(seed), "-nleb", str(n)], timeout=600)
-    recs = [json.loads(l) for l in out.split("\n") if l.startswith("{")]
+    recs = jlines(out)
     rows = [r for r in recs if r["k"] == "rows"]
     cases = [r for r in recs if r["k"] in ("dec", "enc")]
     if rc != 0 or len(rows) != 8 or not cases:
@@ -160,7 +160,7 @@ def leb_part(ck, binp, tier, seed, dist):
             if b0 < 0:
                 continue
             rc, out2 = sh([binp, "-mode", "lebrow", "-f", str(f), "-b0", str(b0)], timeout=60)
-            extra += [json.loads(l) for l in out2.split("\n") if l.startswith("{")]
+            extra += jlines(out2)
         if extra:
             items = ["CDec %d %s %d %s %d" % (c["f"], zl(c.get("bs", [])), c["cls"], zz(c["v"]), c["n"]) for c in extra]
             v = ("From Verif Require Import Lib.GoInt Wasm.Leb.\nOpen Scope Z_scope.\nDefinition cases := [\n" + ";\n".join(items) +
